@@ -220,13 +220,23 @@ def make_span(kind, n):
     return range(n)
 
 
+_HOOKLESS = {}
+
+
 def run_solve_t(Model, case):
     """Run one scripted single-period solve on the real solver and collect observations."""
     n = case.get('n', 4)
     t = case['t']
     tn = t if t >= 0 else t + n
-    m = Model(make_span(case.get('span_kind'), n), script=[tuple(p) for p in case['script']], tol=case['tol'], X=1.0,
-              before_fault=case.get('before_fault'), after_fault=case.get('after_fault'))
+    cls = Model
+    if case.get('hook_binding') == 'instance':
+        # the class itself keeps BaseModel's do-nothing hooks; the scripted hooks are attached to the instance (as a user, or a
+        # mock, would: `model.solve_t_before = f`)
+        import fsic
+        cls = _HOOKLESS.get(Model) or _HOOKLESS.setdefault(Model, type('Hookless' + Model.__name__, (Model,), {
+            'solve_t_before': fsic.BaseModel.solve_t_before, 'solve_t_after': fsic.BaseModel.solve_t_after}))
+    m = cls(make_span(case.get('span_kind'), n), script=[tuple(p) for p in case['script']], tol=case['tol'], X=1.0,
+            before_fault=case.get('before_fault'), after_fault=case.get('after_fault'))
     if case.get('check') is not None:
         m.check = list(case['check'])
     m.__dict__['v_write_mode'] = case.get('write_mode')
@@ -254,6 +264,11 @@ def run_solve_t(Model, case):
             m = m.reindex(make_span(case.get('span_kind'), n))
         elif hist == 'add-variable':
             m.add_variable('Late', 3.5)
+    if case.get('hook_binding') == 'instance':
+        # (attached last: an object that refers to itself through an attribute cannot be copied - not this property's subject)
+        import types
+        m.solve_t_before = types.MethodType(Model.solve_t_before, m)
+        m.solve_t_after = types.MethodType(Model.solve_t_after, m)
     if case.get('prior_record'):
         # every period already carries a solution record from an earlier call
         m.status[:] = case['prior_record'][0]
